@@ -2,7 +2,8 @@
 
 D: RegionsDesign.tla - the collapse rule on a scaled hierarchy, every insertion order.
 T: compress_flood_fill_regions / get_region_for_chip results as events judged by RegionsTrace.tla
-   (covering + counting, strict order, well-formed words).
+   (covering + counting, strict order, well-formed words); the core-select packets of real flood fills, first
+   and repeated after faults (a repeated fill is judged against what the machine had not loaded yet).
 """
 import random
 import struct
@@ -271,6 +272,187 @@ def gen_far(rng, chk, traces):
         chk.count("pairs of trees fed alternately")
 
 
+def wire_events(chk, tr9, bins, traces):
+    """the core-select packets the machine received between the start and the end of each fill of one recorded load,
+    as events: the first fill of a binary is asked for the binary's targets ("ff"); a later fill of the same binary
+    (a retry) for what is still missing of them - the event carries the targets and every core the machine reported
+    as loaded by this binary's earlier fills ("refill"; the specification takes the difference).  Returns the number
+    of first fills and of later fills judged."""
+    first = again = 0
+    got = {}                                                    # binary -> {(x, y, p)} loaded by its fills so far
+    cur = None
+    for e in tr9["ev"]:
+        if e[0] == "start":
+            cur = dict(sel=[], data=[])
+        elif cur is not None and e[0] == "select":
+            cur["sel"].append(list(e[1]) + [int(e[2])])
+        elif cur is not None and e[0] == "data":
+            cur["data"] += list(e[6])
+        elif cur is not None and e[0] == "end":
+            which = [b for b, (d, _) in enumerate(bins) if list(bytearray(d)) == cur["data"]]
+            if len(which) == 1:
+                b = which[0]
+                tg = [[x, y, sorted(int(c) for c in cs)] for (x, y), cs in sorted(bins[b][1].items())]
+                if b not in got:
+                    traces.append(dict(ev=[["ff", tg, cur["sel"]]], label="flood_fill_aplx, pairs as received"))
+                    chk.note_case(("wire", tg), nontrivial=True)
+                    first += 1
+                else:
+                    traces.append(dict(ev=[["refill", tg, [list(c) for c in sorted(got[b])], cur["sel"]]],
+                                       label="load_application, pairs of a retry fill as received"))
+                    chk.note_case(("rewire", tg, sorted(got[b])), nontrivial=True)
+                    again += 1
+                got.setdefault(b, set()).update(tuple(int(v) for v in c) for c in e[4])
+            else:
+                chk.count("fills whose data is no requested binary (left to C09)")
+            cur = None
+    return first, again
+
+
+def gen_refills(rng, chk, wd, traces):
+    """loads that do not succeed at once: an application map of one to three binaries, each on several chips with
+    different cores, against a machine on which whole chips miss a fill and single cores do not come up after it
+    (both per fill, by a random schedule); load_application repeats the load of what is missing.  Every fill's
+    core-select packets are judged: a repeated fill must select exactly the cores still missing at that time."""
+    from . import c09
+    from ..env.simnet import SimNet
+    from ..env.spinnaker_sim import STATE_IDLE
+    from rig.machine_control import scp_connection, machine_controller
+
+    class CoreFaultMachine(c09.AppMaskMachine):
+        """cores that do not come up: when a fill ends, the cores the schedule names for that fill (the n-th since the
+        machine was reset) are left as they were at power-on, and the machine does not report them as loaded"""
+        nfill = 0
+        dud = staticmethod(lambda n, x, y, p: False)
+
+        def _cmd_20(self, chip, p, a, data, rec):
+            res = c09.AppMaskMachine._cmd_20(self, chip, p, a, data, rec)
+            ff = rec.get("ff")
+            if ff is not None and ff[0] == "start":
+                self.nfill += 1
+            elif ff is not None and ff[0] == "end" and "loaded" in rec:
+                kept = []
+                for (x, y, i) in rec["loaded"]:
+                    if self.dud(self.nfill, x, y, i):
+                        c = self.chips[(x, y)]
+                        c.core_state[i], c.core_app[i], c.core_image[i] = STATE_IDLE, 0, None
+                        self._sync_core(c, i)
+                    else:
+                        kept.append((x, y, i))
+                rec["loaded"] = kept
+            return res
+
+    sims = {}
+    judged = [0, 0]
+    raised = 0
+    for rep in range(chk.pick(40, 600)):
+        w, h = rng.choice(((2, 1), (2, 2), (3, 3), (4, 4), (5, 3), (8, 8)))
+        chips = [(x, y) for x in range(w) for y in range(h)]
+        nb = rng.choice((1, 2, 2, 3))
+        bins = []
+        taken = set()
+        for i in range(nb):
+            data = bytes(bytearray([i + 1] + [rng.randrange(256) for _ in range(4 * rng.randint(1, 40) - 1)]))
+            tg = {}
+            for xy in rng.sample(chips, min(len(chips), rng.choice((2, 2, 3, 5, 9, 30)))):
+                ps = [p for p in range(1, 18) if (xy, p) not in taken]
+                ps = rng.sample(ps, min(len(ps), rng.choice((1, 1, 2, 3, 6))))
+                if ps:
+                    tg[xy] = set(ps)
+                    taken.update((xy, p) for p in ps)
+            if tg:
+                bins.append((data, tg))
+        if not bins:
+            continue
+        ntries = rng.choice((1, 2, 2, 3))
+        nfills = (ntries + 1) * len(bins)
+        targeted = sorted({xy for _, tg in bins for xy in tg})
+        pm, pd = rng.choice(((0.3, 0.0), (0.0, 0.3), (0.2, 0.2), (0.1, 0.5)))
+        miss = [[xy for xy in targeted if rng.random() < pm] for _ in range(nfills)]
+        duds = [set((xy[0], xy[1], p) for _, tg in bins for xy, ps in tg.items() for p in ps if rng.random() < pd)
+                for _ in range(nfills)]
+        if rep % 2:                                             # whichever binary's fill comes first: one of its
+            for _, tg in bins:                                  # cores, on one of its chips, does not come up
+                xy = rng.choice(sorted(tg))
+                for k in range(len(bins)):
+                    duds[k].add((xy[0], xy[1], rng.choice(sorted(tg[xy]))))
+        sc = dict(w=w, h=h, ncores=18, buf=rng.choice((64, 256)), app=30 + rep % 200, wait=rng.randrange(2),
+                  ntries=ntries, usecount=rng.randrange(2), style="two" if len(bins) == 1 and rep % 2 else "map",
+                  shape=rng.choice(("dict", "dict", "ordered", "appmap", "frozen")), bins=bins, miss=miss,
+                  label="C12: pairs of retry fills on the wire")
+        sim = sims.get((w, h))
+        if sim is None:
+            sim = sims[(w, h)] = CoreFaultMachine(w, h, c09.STRUCT_TEXT)
+        c09.reset_sim(sim, sc["buf"], 18)
+        sim.nfill = 0
+        sim.dud = lambda n, x, y, p, duds=duds: n <= len(duds) and (x, y, p) in duds[n - 1]
+        net = SimNet(sim)
+        net.install(scp_connection, machine_controller)
+        try:
+            tr9, _ = c09.one_call(sim, machine_controller.MachineController("sim"), wd, sc)
+        finally:
+            net.uninstall()
+            sim.dud = lambda n, x, y, p: False
+        first, again = wire_events(chk, tr9, bins, traces)
+        judged[0] += first
+        judged[1] += again
+        raised += tr9["ev"][-1][0] == "raise"
+    chk.count("first fills of faulty loads whose core-select packets were judged", judged[0])
+    chk.count("retry fills whose core-select packets were judged against what was still missing", judged[1])
+    chk.count("faulty loads that ended in an exception", raised)
+
+
+def gen_chip_sweep(rng, chk, traces):
+    """get_region_for_chip as a long-running program on a big machine uses it: in ONE process, for thousands of chips
+    spread over the whole 256 x 256 address range, at every level, in shuffled order, every question asked twice at
+    different times (the answer is a function of the co-ordinates and the level, whatever was asked before).  The
+    chips: whole columns and whole rows next to each other (every pair of chips one step apart in one co-ordinate and
+    any distance apart in the other), one chip in every 16 x 16 block, and chips differing from one another in one bit
+    of one co-ordinate or with the co-ordinates exchanged."""
+    def ask(x, y, lv, dflt):
+        try:
+            wd = regions.get_region_for_chip(x, y) if dflt else regions.get_region_for_chip(x, y, lv)
+            return ["chip", x, y, lv, word_bytes(int(wd))]
+        except Exception:                                       # judged: the zero word covers no chip
+            chk.count("get_region_for_chip raised")
+            return ["chip", x, y, lv, [0, 0, 0, 0]]
+    chips = set()
+    x0, y0 = rng.randrange(255), rng.randrange(255)
+    for x in (x0, x0 + 1, rng.randrange(256)):
+        chips.update((x, y) for y in range(256))
+    for y in (y0, y0 + 1, rng.randrange(256)):
+        chips.update((x, y) for x in range(256))
+    for bx in range(16):
+        for by in range(16):
+            chips.add((16 * bx + rng.randrange(16), 16 * by + rng.randrange(16)))
+    for _ in range(chk.pick(6, 60)):
+        x, y = rng.randrange(256), rng.randrange(256)
+        chips.add((x, y)); chips.add((y, x))
+        for b in range(8):
+            chips.add((x ^ (1 << b), y)); chips.add((x, y ^ (1 << b)))
+    if not chk.quick:
+        chips.update((rng.randrange(256), rng.randrange(256)) for _ in range(6000))
+    first = [(x, y, lv) for (x, y) in sorted(chips) for lv in range(4)]
+    rng.shuffle(first)
+    second = list(first)
+    rng.shuffle(second)
+    if chk.quick:
+        second = second[:len(second) // 2]
+    # the second round begins while the first is still going on: early questions come back soon, late ones late
+    order, k = [], 0
+    for n, q in enumerate(first):
+        order.append(q)
+        if n >= len(first) // 2 and k < len(second):
+            order.append(second[k]); k += 1
+    order += second[k:]
+    evs = [ask(x, y, lv, lv == 3 and (x + y) % 2 == 0) for (x, y, lv) in order]
+    for k in range(0, len(evs), 1000):
+        traces.append(dict(ev=evs[k:k + 1000], label="get_region_for_chip for many chips of a big machine in one process"))
+    chk.evaluations += len(evs)
+    chk.count("get_region_for_chip calls of the many-chip sweep", len(evs))
+    chk.count("chips of the many-chip sweep", len(chips))
+
+
 def run(chk):
     rng = random.Random(chk.seed)
     chk.design("RegionsDesign", "RegionsDesign.cfg", expect_actions=("AddCore",))
@@ -337,25 +519,11 @@ def run(chk):
         sc = dict(w=w, h=h, ncores=18, buf=rng.choice((64, 256)), app=30 + rep % 200, wait=1, ntries=1, usecount=0,
                   style="map", bins=bins, miss=[], label="C12: pairs on the wire")
         tr9, _, _ = c09.run_scenario(wd, sc)
-        cur = None
-        for e in tr9["ev"]:
-            if e[0] == "start":
-                cur = dict(sel=[], data=[])
-            elif cur is not None and e[0] == "select":
-                cur["sel"].append(list(e[1]) + [int(e[2])])
-            elif cur is not None and e[0] == "data":
-                cur["data"] += list(e[6])
-            elif cur is not None and e[0] == "end":
-                which = [tg for d, tg in bins if list(bytearray(d)) == cur["data"]]
-                if len(which) == 1:
-                    tg = [[x, y, sorted(int(c) for c in cs)] for (x, y), cs in sorted(which[0].items())]
-                    traces.append(dict(ev=[["ff", tg, cur["sel"]]], label="flood_fill_aplx, pairs as received"))
-                    chk.note_case(("wire", tg), nontrivial=True)
-                    wired += 1
-                else:
-                    chk.count("fills whose data is no requested binary (left to C09)")
-                cur = None
+        wired += wire_events(chk, tr9, bins, traces)[0]
     chk.count("fills of multi-binary loads whose core-select packets were judged", wired)
+    # ... and the pairs of the fills that REPEAT a binary's load after a fault (own generator state)
+    gen_refills(random.Random(chk.seed * 104729 + 12), chk, wd, traces)
+    # get_region_for_chip at random places, then as a program talking to many chips of a big machine asks it
     evs = []
     for _ in range(chk.pick(300, 10000)):
         x, y, lv = rng.randrange(256), rng.randrange(256), rng.randrange(4)
@@ -364,6 +532,7 @@ def run(chk):
     for x, y in ((0, 0), (255, 255), (3, 4), (252, 3)):
         evs.append(["chip", x, y, 3, word_bytes(regions.get_region_for_chip(x, y))])
     traces.append(dict(ev=evs))
+    gen_chip_sweep(random.Random(chk.seed * 15485863 + 12), chk, traces)
     # ---- job R: insertion orders chosen by TLC's simulator (RegionsSim) are replayed into the real tree; the
     # observable after every few insertions is judged like any other result
     from .. import tlc as tlcmod
@@ -399,7 +568,11 @@ def run(chk):
                 "several 64x64 blocks in one level-0 word, all eighteen cores, chips with an empty core set, the same sets "
                 "as lists with repeats / tuples / frozensets / iterators / OrderedDict / defaultdict / numpy integers / one "
                 "shared set object, add_core sequences naming cores again after their block collapsed, two trees alive at "
-                "once. non-trivial = more than one target chip; distinct = "
+                "once; the core-select packets of multi-binary flood fills and of the REPEATED fills of loads on a machine "
+                "where chips miss a fill and single cores do not come up (each judged against what was still missing); "
+                "get_region_for_chip for ~1900 chips over the whole address range (adjacent whole columns and rows, one "
+                "chip per 16x16 block, one-bit neighbours) at every level in one process, shuffled, asked again later. "
+                "non-trivial = more than one target chip; distinct = "
                 "distinct target set")
     chk.exhaustive = False
     chk.sample(traces[0]["ev"][0]); chk.sample(traces[-2]["ev"][0]); chk.sample(evs[0])
@@ -415,12 +588,18 @@ def selftest(chk):
     t = {(0, 0): {1}, (1, 0): {1, 2}}
     pairs = [word_bytes(r) + [int(m)] for r, m in regions.compress_flood_fill_regions(t)]
     tg = [[x, y, sorted(cs)] for (x, y), cs in sorted(t.items())]
+    rest = [word_bytes(r) + [int(m)] for r, m in regions.compress_flood_fill_regions({(1, 0): {1}})]
     cases = [
         (dict(ev=[["ff", tg, pairs]]), None),
         (dict(ev=[["ff", tg, pairs[:-1]]]), "NothingMissing"),
         (dict(ev=[["ff", tg, pairs + [[4, 3, 0, 1, 1]]]]), "NothingExtraOrTwice"),
         (dict(ev=[["ff", tg, pairs[::-1]]]), "StrictlyIncreasing"),
         (dict(ev=[["chip", 5, 6, 3, word_bytes(regions.get_region_for_chip(6, 6))]]), "ChipRegionCovers"),
+        # a retry fill: chip (0, 0) core 1 and chip (1, 0) core 2 are loaded, core 1 of chip (1, 0) is still missing
+        (dict(ev=[["refill", tg, [[0, 0, 1], [1, 0, 2]], rest]]), None),
+        (dict(ev=[["refill", tg, [[0, 0, 1], [1, 0, 2]], pairs]]), "NothingExtraOrTwice"),
+        (dict(ev=[["refill", tg, [[0, 0, 1]], rest]]), "NothingMissing"),
+        (dict(ev=[["refill", tg, [], pairs]]), None),
     ]
     rej = chk.validate("RegionsTrace", "RegionsTrace.cfg", [c[0] for c in cases])
     got = {id(t): cl for t, _, cl in rej}
@@ -429,4 +608,4 @@ def selftest(chk):
         cl = got.get(id(tr))
         if (want is None) != (cl is None) or (want and want not in cl):
             msgs.append("expected %s, got %s" % (want, cl))
-    return not msgs, "; ".join(msgs) or "%d corrupted traces rejected with the expected clauses" % (len(cases) - 1)
+    return not msgs, "; ".join(msgs) or "%d corrupted traces rejected with the expected clauses" % len([c for c in cases if c[1]])
